@@ -1,11 +1,15 @@
 """C48 — cached metadata is used only while it is still valid (DESIGN §6 C48).
 
-Stream "read": random small repositories on disk (one ebuild, up to five eclasses in one or two
-stacked repositories, 1-3 metadata caches of either layout, writable / read-only / unwritable),
-then a history of random edits, each followed by one metadata read through the real
-package_factory._get_metadata with real cache and eclass-cache objects built afresh (a new
-process).  Only the ebuild daemon is replaced: `processor.reuse_or_request` yields a stub whose
-get_keys() parses the ebuild text and counts its calls.
+Stream "read": random small repositories on disk (2-3 packages whose inherit lists are equal or
+overlap, up to five eclasses in one or two stacked repositories, 1-3 metadata caches of either
+layout, writable / read-only / unwritable).  A history is a sequence of SESSIONS: before each
+session 1-3 random edits (any kind), then ONE long-lived set of objects (eclass cache, metadata
+caches, package_factory = one repository object of one process) reads every package in a random
+order (sometimes one of them twice) through the real package_factory._get_metadata, with ebuild /
+cache-entry edits between the reads of a session (eclass files are only edited between sessions:
+a process keeps its first view of them).  State that the objects carry from one read to the next
+(e.g. the eclass-data memo) is therefore exercised.  Only the ebuild daemon is replaced:
+`processor.reuse_or_request` yields a stub whose get_keys() parses the ebuild text and counts its calls.
   (A) outcome (index of the cache used / regenerated, payload returned) and the entry found in
       every cache afterwards                                    impl vs Model_C48.get_metadata
   (B) in Coq: Spec_C48.spec_read_ok on the implementation's recorded result;
@@ -33,7 +37,6 @@ ANCHORS = ["cache/__init__.py::base.validate_entry", "ebuild/eclass_cache.py::ba
            "ebuild/eclass_cache.py::StackedCaches._load_eclasses", "ebuild/eclass_cache.py::cache._load_eclasses",
            "ebuild/ebuild_src.py::package_factory._get_metadata",
            "ebuild/ebuild_src.py::package_factory._update_metadata"]
-CPV = "cat/pkg-1"
 ECL = ["e0", "e1", "e2", "e3", "e4"]
 T0 = 1_600_000_000
 
@@ -44,7 +47,7 @@ def md5_of(path):
 
 
 class Repo:
-    """the on-disk fixture and the objects built over it"""
+    """the on-disk fixture"""
 
     def __init__(self, root, rng):
         self.root, self.rng = root, rng
@@ -52,53 +55,67 @@ class Repo:
         self.nstack = rng.choice([1, 2, 2])
         for d in self.dirs:
             os.makedirs(d)
-        self.ebuild = os.path.join(root, "repoA", "cat", "pkg", "pkg-1.ebuild")
-        os.makedirs(os.path.dirname(self.ebuild))
+        self.pkgs = ["pkg-1", "pkg-2"] + (["pkg-3"] if rng.random() < 0.4 else [])
+        os.makedirs(os.path.join(root, "repoA", "cat", "pkg"))
         self.clock = T0
-        self.payload = 0
+        self.counter = 0
+        self.payload = {}
         self.inherit_key = rng.random() < 0.85
-        self.dirty = False          # an edit kept a validation value although the content changed
+        self.dirty = set()          # packages for which an edit kept a validation value although content changed
         ncache = rng.choice([1, 1, 2, 2, 3])
         self.caches = []
         for i in range(ncache):
             lay = rng.choice(["flat", "md5"])
-            ro = rng.random() < 0.25
-            wfail = (not ro) and rng.random() < 0.12
+            ro = rng.random() < 0.2
+            wfail = (not ro) and rng.random() < 0.1
             loc = os.path.join(root, f"cache{i}")
             os.makedirs(loc)
             if wfail:
                 with open(os.path.join(loc, "cat"), "w") as f:      # the category "directory" is a file
                     f.write("")
             self.caches.append({"lay": lay, "ro": ro, "wfail": wfail, "loc": loc})
-        for n in rng.sample(ECL, rng.randint(1, 4)):
+        have = rng.sample(ECL, rng.randint(2, 4))
+        for n in have:
             self.write_eclass(rng.randrange(self.nstack), n)
-        self.write_ebuild(rng.sample(ECL, rng.randint(0, 3)))
+        base = rng.sample(have, rng.randint(1, min(3, len(have))))
+        for j, p in enumerate(self.pkgs):
+            if j == 0 or rng.random() < 0.6:
+                inh = list(base)                                     # the same inherit list
+            else:
+                inh = [n for n in base if rng.random() < 0.7] + [n for n in ECL if n not in base and rng.random() < 0.25]
+            rng.shuffle(inh)
+            self.write_ebuild(p, inh)
 
     # ---------------------------------------------------------------- files
     def tick(self):
         self.clock += self.rng.randint(1, 50)
         return self.clock
 
-    def write_ebuild(self, inherits, keep_mtime=False):
-        old = os.stat(self.ebuild).st_mtime if os.path.exists(self.ebuild) else None
-        self.payload += 1
-        with open(self.ebuild, "w") as f:
-            f.write(f"EAPI=8\nDESCRIPTION=d{self.payload}\ninherit {' '.join(inherits)}\n")
-        t = old if (keep_mtime and old is not None) else self.tick()
-        os.utime(self.ebuild, (t, t))
+    def ebuild(self, p):
+        return os.path.join(self.root, "repoA", "cat", "pkg", p + ".ebuild")
 
-    def ebuild_inherits(self):
-        with open(self.ebuild) as f:
+    def write_ebuild(self, p, inherits, keep_mtime=False):
+        path = self.ebuild(p)
+        old = os.stat(path).st_mtime if os.path.exists(path) else None
+        self.counter += 1
+        self.payload[p] = self.counter
+        with open(path, "w") as f:
+            f.write(f"EAPI=8\nDESCRIPTION=d{self.counter}\ninherit {' '.join(inherits)}\n")
+        t = old if (keep_mtime and old is not None) else self.tick()
+        os.utime(path, (t, t))
+
+    def ebuild_inherits(self, p):
+        with open(self.ebuild(p)) as f:
             for l in f:
                 if l.startswith("inherit"):
                     return l.split()[1:]
         return []
 
-    def write_eclass(self, repo, name, keep_mtime=False, content=None):
+    def write_eclass(self, repo, name, keep_mtime=False):
         p = os.path.join(self.dirs[repo], name + ".eclass")
         old = os.stat(p).st_mtime if os.path.exists(p) else None
         with open(p, "w") as f:
-            f.write(content if content is not None else f"# {name} {self.rng.randrange(10**9)}\n")
+            f.write(f"# {name} {self.rng.randrange(10**9)}\n")
         t = old if (keep_mtime and old is not None) else self.tick()
         os.utime(p, (t, t))
 
@@ -110,8 +127,8 @@ class Repo:
                     out.append((r, fn[:-7]))
         return out
 
-    def entry_path(self, i):
-        return os.path.join(self.caches[i]["loc"], CPV)
+    def entry_path(self, i, p):
+        return os.path.join(self.caches[i]["loc"], "cat", p)
 
     # ---------------------------------------------------------------- observation (model input / output)
     def dir_id(self, d):
@@ -121,21 +138,21 @@ class Repo:
                 return i + 1
         return 90 + (sum(d.encode()) % 9)
 
-    def world(self):
-        st = os.stat(self.ebuild)
-        eb = (0, int(st.st_mtime), md5_of(self.ebuild))
+    def world(self, p):
+        st = os.stat(self.ebuild(p))
+        eb = (0, int(st.st_mtime), md5_of(self.ebuild(p)))
         stack = []
         for r in range(self.nstack):
             repo = []
             for fn in sorted(os.listdir(self.dirs[r])):
                 if fn.endswith(".eclass"):
-                    p = os.path.join(self.dirs[r], fn)
-                    repo.append((ECL.index(fn[:-7]), (r + 1, int(os.stat(p).st_mtime), md5_of(p))))
+                    q = os.path.join(self.dirs[r], fn)
+                    repo.append((ECL.index(fn[:-7]), (r + 1, int(os.stat(q).st_mtime), md5_of(q))))
             stack.append(repo)
         visible = {n for repo in stack for n, _ in repo}
-        inh = [ECL.index(n) for n in self.ebuild_inherits() if ECL.index(n) in visible]
-        return {"ebuild": eb, "stack": stack, "inherited": inh, "inherit_key": bool(self.inherit_key and inh),
-                "payload": self.payload}
+        inh = [ECL.index(n) for n in self.ebuild_inherits(p) if ECL.index(n) in visible]
+        return {"pkg": p, "ebuild": eb, "stack": stack, "inherited": inh,
+                "inherit_key": bool(self.inherit_key and inh), "payload": self.payload[p]}
 
     def mk_cache(self, i):
         from pkgcore.cache import flat_hash
@@ -146,11 +163,11 @@ class Repo:
         o.location = c["loc"]
         return o
 
-    def slot(self, i):
-        """what cache[cpv] gives for cache i, canonicalised"""
+    def slot(self, i, p):
+        """what cache[cpv] gives for cache i (a fresh cache object), canonicalised"""
         from pkgcore.cache import errors
         try:
-            d = self.mk_cache(i)[CPV]
+            d = self.mk_cache(i)["cat/" + p]
         except KeyError:
             return None
         except errors.CacheError:
@@ -164,49 +181,59 @@ class Repo:
                 v = dict(chfs)
                 nid = ECL.index(n) if n in ECL else 50
                 out.append([nid, self.dir_id(v["eclassdir"]), v["mtime"]] if lay == "flat" else [nid, v["md5"]])
-            ecl = out
+            ecl = sorted(out)           # order inside an entry is memo-dependent and irrelevant: compare as a set
         desc = d.get("DESCRIPTION", "d0")
         pay = int(desc[1:]) if desc[1:].isdigit() else 0
         return [chf, ecl, d.get("INHERIT") is not None, pay]
 
-    # ---------------------------------------------------------------- the read
-    def read(self):
+
+class Session:
+    """one long-lived repository object: eclass cache, metadata caches and package factory are
+    built once and serve every read of the session"""
+
+    def __init__(self, repo):
         from pkgcore.ebuild import ebuild_src, eclass_cache
         from pkgcore.ebuild.eapi import get_eapi
 
-        ecs = [eclass_cache.cache(self.dirs[r]) for r in range(self.nstack)]
-        ec = ecs[0] if self.nstack == 1 else eclass_cache.StackedCaches(ecs)
-        caches = [self.mk_cache(i) for i in range(len(self.caches))]
-        log = []
+        self.repo, self.src, self.eapi = repo, ebuild_src, get_eapi("8")
+        ecs = [eclass_cache.cache(repo.dirs[r]) for r in range(repo.nstack)]
+        self.ec = ecs[0] if repo.nstack == 1 else eclass_cache.StackedCaches(ecs)
+        caches = [repo.mk_cache(i) for i in range(len(repo.caches))]
+        self.log = []
         for i, c in enumerate(caches):
             real = c.validate_entry
 
             def wrapped(item, h, e, real=real, i=i):
                 r = real(item, h, e)
-                log.append((i, bool(r)))
+                self.log.append((i, bool(r)))
                 return r
             c.validate_entry = wrapped
-        repo = SimpleNamespace(_get_ebuild_path=lambda pkg: self.ebuild)
-        pf = ebuild_src.package_factory(repo, tuple(caches), ec, {}, {})
-        pkg = SimpleNamespace(cpvstr=CPV, path=self.ebuild, eapi=get_eapi("8"))
-        stub = Stub(self, ec)
+        parent = SimpleNamespace(_get_ebuild_path=lambda pkg: pkg.path)
+        self.pf = ebuild_src.package_factory(parent, tuple(caches), self.ec, {}, {})
+        self.stub = Stub(repo, self.ec)
+        self.held = []          # package objects keep their metadata for the life of the repository object
+
+    def read(self, p):
+        del self.log[:]
+        self.stub.calls = 0
+        pkg = SimpleNamespace(cpvstr="cat/" + p, path=self.repo.ebuild(p), eapi=self.eapi)
 
         @contextlib.contextmanager
         def fake_request(ebp=None):
-            yield stub
-        saved = ebuild_src.processor.reuse_or_request
-        ebuild_src.processor.reuse_or_request = fake_request
+            yield self.stub
+        saved = self.src.processor.reuse_or_request
+        self.src.processor.reuse_or_request = fake_request
         try:
-            data = pf._get_metadata(pkg)
+            data = self.pf._get_metadata(pkg)
         finally:
-            ebuild_src.processor.reuse_or_request = saved
-        used = [i for i, r in log if r]
-        desc = data.get("DESCRIPTION", "d0")
-        pay = int(desc[1:])
+            self.src.processor.reuse_or_request = saved
+        self.held.append(data)
+        used = [i for i, r in self.log if r]
+        pay = int(data.get("DESCRIPTION", "d0")[1:])
         idx = used[0] if used else -1
-        if (idx == -1) != (stub.calls == 1) or stub.calls > 1:
-            raise AssertionError(f"validate log {log} vs regeneration count {stub.calls}")
-        return [idx, pay], data
+        if (idx == -1) != (self.stub.calls == 1) or self.stub.calls > 1:
+            raise AssertionError(f"validate log {self.log} vs regeneration count {self.stub.calls}")
+        return [idx, pay]
 
 
 class Stub:
@@ -268,13 +295,13 @@ def raw_entry(path, lay):
     return chf, ecl, "INHERIT" in d
 
 
-def raw_valid(repo, i):
+def raw_valid(repo, i, p):
     lay = repo.caches[i]["lay"]
-    e = raw_entry(repo.entry_path(i), lay)
+    e = raw_entry(repo.entry_path(i, p), lay)
     if e is None:
         return False
     chf, ecl, has_inherit = e
-    now = int(os.stat(repo.ebuild).st_mtime) if lay == "flat" else md5_of(repo.ebuild)
+    now = int(os.stat(repo.ebuild(p)).st_mtime) if lay == "flat" else md5_of(repo.ebuild(p))
     if chf != now:
         return False
     if ecl is None:
@@ -284,9 +311,9 @@ def raw_valid(repo, i):
     for name, rec in ecl:
         found = None
         for r in range(repo.nstack):
-            p = os.path.join(repo.dirs[r], name + ".eclass")
-            if os.path.isfile(p):
-                found = p
+            q = os.path.join(repo.dirs[r], name + ".eclass")
+            if os.path.isfile(q):
+                found = q
                 break
         if found is None:
             return False
@@ -299,51 +326,61 @@ def raw_valid(repo, i):
 
 
 # ------------------------------------------------------------------ edits
-def edit(repo, rng):
+MID_KINDS = ["ebuild_content", "ebuild_touch", "ebuild_older", "ebuild_same_mtime", "ebuild_inherits",
+             "drop_inherit_key", "corrupt", "delete", "copy", "empty_eclasses", "stale_eclass_value"]
+ECLASS_KINDS = ["eclass_edit", "eclass_edit", "eclass_touch", "eclass_older", "eclass_same_mtime", "eclass_remove",
+                "eclass_move", "eclass_shadow", "eclass_add"]
+ALL_KINDS = MID_KINDS + ECLASS_KINDS + ECLASS_KINDS + ["toggle_ro", "none"]
+
+
+def edit(repo, rng, mid_session):
+    """one random edit; within a session only ebuilds and cache entries are touched"""
+    k = rng.choice(MID_KINDS if mid_session else ALL_KINDS)
+    p = rng.choice(repo.pkgs)
+    label = k
     files = repo.eclass_files()
-    kinds = ["ebuild_content", "ebuild_touch", "ebuild_same_mtime", "ebuild_inherits", "eclass_edit", "eclass_touch",
-             "eclass_same_mtime", "eclass_remove", "eclass_move", "eclass_shadow", "eclass_add", "drop_inherit_key",
-             "corrupt", "delete", "copy", "empty_eclasses", "none", "none", "toggle_ro", "stale_eclass_value",
-             "ebuild_older", "eclass_older"]
-    k = rng.choice(kinds)
-    inh = repo.ebuild_inherits()
+    if k.startswith("ebuild") or k in ("drop_inherit_key", "corrupt", "delete", "empty_eclasses", "stale_eclass_value", "copy"):
+        label = f"{k}({p})"
+    inh = repo.ebuild_inherits(p)
     if k == "ebuild_content":
-        repo.write_ebuild(inh)
+        repo.write_ebuild(p, inh)
     elif k == "ebuild_touch":
         t = repo.tick()
-        os.utime(repo.ebuild, (t, t))
+        os.utime(repo.ebuild(p), (t, t))
     elif k == "ebuild_older":                            # the mtime moves backwards (e.g. a restored file)
-        t = os.stat(repo.ebuild).st_mtime - rng.randint(1, 1000)
-        os.utime(repo.ebuild, (t, t))
-    elif k == "eclass_older" and files:
-        r, n = rng.choice(files)
-        p = os.path.join(repo.dirs[r], n + ".eclass")
-        t = os.stat(p).st_mtime - rng.randint(1, 1000)
-        os.utime(p, (t, t))
+        t = os.stat(repo.ebuild(p)).st_mtime - rng.randint(1, 1000)
+        os.utime(repo.ebuild(p), (t, t))
     elif k == "ebuild_same_mtime":
-        repo.write_ebuild(inh, keep_mtime=True)
-        repo.dirty = True
+        repo.write_ebuild(p, inh, keep_mtime=True)
+        repo.dirty.add(p)
     elif k == "ebuild_inherits":
-        repo.write_ebuild(rng.sample(ECL, rng.randint(0, 3)))
-    elif k in ("eclass_edit", "eclass_touch", "eclass_same_mtime", "eclass_remove", "eclass_move") and files:
-        r, n = rng.choice(files)
-        p = os.path.join(repo.dirs[r], n + ".eclass")
+        other = repo.ebuild_inherits(rng.choice(repo.pkgs))
+        repo.write_ebuild(p, list(other) if rng.random() < 0.5 else rng.sample(ECL, rng.randint(0, 3)))
+    elif k in ("eclass_edit", "eclass_touch", "eclass_older", "eclass_same_mtime", "eclass_remove", "eclass_move") and files:
+        used = {n for q in repo.pkgs for n in repo.ebuild_inherits(q)}
+        pref = [f for f in files if f[1] in used]
+        r, n = rng.choice(pref if pref and rng.random() < 0.8 else files)      # mostly an inherited eclass
+        q = os.path.join(repo.dirs[r], n + ".eclass")
+        label = f"{k}({n})"
         if k == "eclass_edit":
             repo.write_eclass(r, n)
         elif k == "eclass_touch":
             t = repo.tick()
-            os.utime(p, (t, t))
+            os.utime(q, (t, t))
+        elif k == "eclass_older":
+            t = os.stat(q).st_mtime - rng.randint(1, 1000)
+            os.utime(q, (t, t))
         elif k == "eclass_same_mtime":
             repo.write_eclass(r, n, keep_mtime=True)
-            repo.dirty = True
+            repo.dirty.update(repo.pkgs)
         elif k == "eclass_remove":
-            os.unlink(p)
+            os.unlink(q)
         elif repo.nstack == 2:                           # moved between the stacked repositories
-            q = os.path.join(repo.dirs[1 - r], n + ".eclass")
-            if not os.path.exists(q):
-                t = os.stat(p).st_mtime
-                shutil.move(p, q)
-                os.utime(q, (t, t))
+            q2 = os.path.join(repo.dirs[1 - r], n + ".eclass")
+            if not os.path.exists(q2):
+                t = os.stat(q).st_mtime
+                shutil.move(q, q2)
+                os.utime(q2, (t, t))
     elif k == "eclass_shadow" and repo.nstack == 2:      # the same name appears in the other repository
         n = rng.choice(ECL)
         r = rng.randrange(2)
@@ -353,9 +390,9 @@ def edit(repo, rng):
         repo.write_eclass(rng.randrange(repo.nstack), rng.choice(ECL))
     elif k in ("drop_inherit_key", "corrupt", "delete", "empty_eclasses", "stale_eclass_value"):
         i = rng.randrange(len(repo.caches))
-        p = repo.entry_path(i)
-        if os.path.isfile(p):
-            with open(p) as f:
+        q = repo.entry_path(i, p)
+        if os.path.isfile(q):
+            with open(q) as f:
                 lines = f.read().split("\n")
             if k == "drop_inherit_key":
                 lines = [l for l in lines if not l.startswith("INHERIT=")]
@@ -366,21 +403,21 @@ def edit(repo, rng):
             elif k == "stale_eclass_value":
                 lines = [l.replace("\t", "\t1", 1) if l.startswith("_eclasses_=") else l for l in lines]
             if k == "delete":
-                os.unlink(p)
+                os.unlink(q)
             else:
-                with open(p, "w") as f:
+                with open(q, "w") as f:
                     f.write("\n".join(l for l in lines if l) + "\n")
     elif k == "copy" and len(repo.caches) > 1:
         i, j = rng.sample(range(len(repo.caches)), 2)
-        if (repo.caches[i]["lay"] == repo.caches[j]["lay"] and os.path.isfile(repo.entry_path(i))
+        if (repo.caches[i]["lay"] == repo.caches[j]["lay"] and os.path.isfile(repo.entry_path(i, p))
                 and not repo.caches[j]["wfail"]):
-            os.makedirs(os.path.dirname(repo.entry_path(j)), exist_ok=True)
-            shutil.copy(repo.entry_path(i), repo.entry_path(j))
+            os.makedirs(os.path.dirname(repo.entry_path(j, p)), exist_ok=True)
+            shutil.copy(repo.entry_path(i, p), repo.entry_path(j, p))
     elif k == "toggle_ro":
         c = rng.choice(repo.caches)
         if not c["wfail"]:
             c["ro"] = not c["ro"]
-    return k
+    return k, label
 
 
 # ------------------------------------------------------------------ Coq rendering
@@ -416,12 +453,14 @@ def c_caches(repo, slots):
 
 def main(chk: Check):
     rng = chk.rng
-    chk.rule("histories over random on-disk repositories (1-2 stacked eclass dirs, 1-3 caches of either layout, "
-             "read-only / unwritable ones included): 22 kinds of edit (ebuild content/touch/older mtime/content-with-same-mtime/"
-             "inherit list, eclass edit/touch/same-mtime/removal/move between stacked repos/shadowing/addition, "
-             "entry without INHERIT, corrupt/deleted/copied entry, empty or stale _eclasses_, read-only toggle), "
-             "one metadata read after each; non-trivial = distinct (world, cache states) in which at least one "
-             "cache holds an entry")
+    chk.rule("histories over random on-disk repositories (2-3 packages with equal/overlapping inherit lists, 1-2 "
+             "stacked eclass dirs, 1-3 caches of either layout, read-only / unwritable ones included): 2-4 sessions, "
+             "each one long-lived repository object reading every package in random order (sometimes one twice); "
+             "22 kinds of edit (ebuild content/touch/older mtime/content-with-same-mtime/inherit list, eclass edit/"
+             "touch/older/same-mtime/removal/move between stacked repos/shadowing/addition, entry without INHERIT, "
+             "corrupt/deleted/copied entry, empty or stale _eclasses_, read-only toggle) before every session and "
+             "(ebuild / entry kinds) between the reads of a session; non-trivial = distinct (world, cache states) "
+             "in which at least one cache holds an entry")
     ok = chk.build(["C48/Prop_C48.vo"])
     if ok:
         chk.check_assumptions("C48/Prop_C48.v")
@@ -431,59 +470,86 @@ def main(chk: Check):
     import logging
     logging.getLogger("pkgcore").setLevel(logging.CRITICAL)
     cases, py_bad, kinds_seen = [], [], {}
-    n_hist = chk.n(36, 250)
+    shared_after_edit = 0
+    n_hist = chk.n(24, 200)
     base = tempfile.mkdtemp(prefix="verif_c48_")
     try:
         for h in range(n_hist):
             root = os.path.join(base, f"h{h}")
             os.makedirs(root)
             repo = Repo(root, rng)
-            hist = []
-            for step in range(rng.randint(4, 8)):
-                k = "init" if step == 0 else edit(repo, rng)
-                hist.append(k)
-                kinds_seen[k] = kinds_seen.get(k, 0) + 1
-                w = repo.world()
-                pre = [repo.slot(i) for i in range(len(repo.caches))]
-                valid_now = [raw_valid(repo, i) for i in range(len(repo.caches))]
-                res, data = repo.read()
-                post = [repo.slot(i) for i in range(len(repo.caches))]
-                term = cpair(c_world(w), c_caches(repo, pre))
-                cases.append((term, [res, post]))
-                if any(s is not None for s in pre):
-                    chk.nontrivial(term)
-                # ---- (B) directly on the implementation
-                ctx = {"history": hist, "world": w, "caches": [dict(c, entry=s) for c, s in zip(repo.caches, pre)],
-                       "result": res, "after": post}
-                first_valid = next((i for i, v in enumerate(valid_now) if v), -1)
-                if res[0] != first_valid:
-                    py_bad.append(dict(ctx, what=(f"cache {res[0]} was used" if res[0] >= 0 else "metadata was regenerated")
-                                       + f" but the first cache whose entry is still valid is {first_valid} "
-                                         "(validity computed from the raw files)"))
-                elif not repo.dirty and res[1] != repo.payload:
-                    py_bad.append(dict(ctx, what=f"returned metadata d{res[1]} differs from metadata regenerated "
-                                                 f"from scratch d{repo.payload}"))
-                elif res[0] == -1:
-                    writable = [i for i, c in enumerate(repo.caches) if not c["ro"] and not c["wfail"]]
-                    stale_left = [i for i, c in enumerate(repo.caches)
-                                  if not c["ro"] and not c["wfail"] and os.path.isfile(repo.entry_path(i))
-                                  and raw_entry(repo.entry_path(i), c["lay"]) is not None and not raw_valid(repo, i)]
-                    fresh_ok = repo.inherit_key or not w["inherited"]
-                    if stale_left and fresh_ok:
-                        py_bad.append(dict(ctx, what=f"after the regeneration writable cache {stale_left[0]} still holds a stale entry"))
-                    elif writable and fresh_ok:
-                        res2, _ = repo.read()
-                        if res2[0] != writable[0]:
-                            py_bad.append(dict(ctx, what=f"a second read after the regeneration was not served from the "
-                                                         f"first writable cache {writable[0]} (got {res2[0]})"))
-                if h < 3 and step == 1:
-                    chk.sample({"stream": "read", "history": hist, "world": w, "caches_before": pre, "result": res,
-                                "caches_after": post})
+            hist = ["packages: " + "; ".join(f"{p} inherits {' '.join(repo.ebuild_inherits(p)) or '-'}" for p in repo.pkgs)]
+            for sess_no in range(rng.randint(2, 4)):
+                if sess_no > 0:
+                    for _ in range(rng.randint(1, 3)):
+                        k, label = edit(repo, rng, False)
+                        hist.append(label)
+                        kinds_seen[k] = kinds_seen.get(k, 0) + 1
+                sess = Session(repo)
+                hist.append("-- new repository object")
+                order = list(repo.pkgs)
+                rng.shuffle(order)
+                if rng.random() < 0.3:
+                    order.append(rng.choice(repo.pkgs))
+                regen_sets = []
+                for j, p in enumerate(order):
+                    if j > 0 and rng.random() < 0.3:
+                        k, label = edit(repo, rng, True)
+                        hist.append(label)
+                        kinds_seen[k] = kinds_seen.get(k, 0) + 1
+                    w = repo.world(p)
+                    nc = range(len(repo.caches))
+                    pre = [repo.slot(i, p) for i in nc]
+                    valid_now = [raw_valid(repo, i, p) for i in nc]
+                    res = sess.read(p)
+                    hist.append(f"read {p} -> " + ("regenerated" if res[0] < 0 else f"cache {res[0]}"))
+                    post = [repo.slot(i, p) for i in nc]
+                    term = cpair(c_world(w), c_caches(repo, pre))
+                    cases.append((term, [res, post]))
+                    if any(s is not None for s in pre):
+                        chk.nontrivial(term)
+                    names = frozenset(w["inherited"])
+                    if names and names in regen_sets and any(s is not None for s in pre):
+                        shared_after_edit += 1     # a package read after another one with the same eclasses was regenerated
+                    if res[0] < 0:
+                        regen_sets.append(names)
+                    # ---- (B) directly on the implementation
+                    ctx = {"history": list(hist), "package": p, "world": w,
+                           "caches": [dict(c, entry=s) for c, s in zip(repo.caches, pre)], "result": res, "after": post}
+                    first_valid = next((i for i, v in enumerate(valid_now) if v), -1)
+                    if res[0] != first_valid:
+                        py_bad.append(dict(ctx, what=(f"{p}: cache {res[0]} was used" if res[0] >= 0
+                                                      else f"{p}: metadata was regenerated")
+                                           + f" but the first cache whose entry is still valid is {first_valid} "
+                                             "(validity computed from the raw files)"))
+                    elif p not in repo.dirty and res[1] != repo.payload[p]:
+                        py_bad.append(dict(ctx, what=f"{p}: returned metadata d{res[1]} differs from metadata "
+                                                     f"regenerated from scratch d{repo.payload[p]}"))
+                    elif res[0] == -1:
+                        writable = [i for i, c in enumerate(repo.caches) if not c["ro"] and not c["wfail"]]
+                        stale_left = [i for i in writable if os.path.isfile(repo.entry_path(i, p))
+                                      and raw_entry(repo.entry_path(i, p), repo.caches[i]["lay"]) is not None
+                                      and not raw_valid(repo, i, p)]
+                        fresh_ok = repo.inherit_key or not w["inherited"]
+                        if stale_left and fresh_ok:
+                            py_bad.append(dict(ctx, what=f"{p}: after the regeneration writable cache {stale_left[0]} "
+                                                         "still holds a stale entry"))
+                        elif writable and fresh_ok:
+                            res2 = sess.read(p)
+                            if res2[0] != writable[0]:
+                                py_bad.append(dict(ctx, what=f"{p}: a second read after the regeneration was not served "
+                                                             f"from the first writable cache {writable[0]} (got {res2[0]})"))
+                    if h < 3 and sess_no == 1 and j == 1:
+                        chk.sample({"stream": "read", "history": list(hist), "world": w, "caches_before": pre,
+                                    "result": res, "caches_after": post})
             shutil.rmtree(root, ignore_errors=True)
     finally:
         shutil.rmtree(base, ignore_errors=True)
     chk.count("read", len(cases))
     chk.note("edit kinds exercised: " + ", ".join(f"{k}={v}" for k, v in sorted(kinds_seen.items())))
+    chk.note(f"reads of a package holding a cache entry after the same repository object had regenerated another "
+             f"package with the same inherited eclasses: {shared_after_edit}")
+    chk.cov["shared_eclass_reads_after_regen"] = shared_after_edit
 
     spec_bad = []
     r = chk.coq_eval("read", IMPORTS, "world * list cache", cases,
